@@ -122,6 +122,8 @@ impl ConsumeUnverifiedBlockProcessor {
         } = unverified_block;
         let block_hash = block.hash();
         // process this unverified block
+        #[cfg(ckb_verif)]
+        ckb_util::verif::point("chain::before_verify_block");
         let verify_result = self.verify_block(&block, &parent_header, switch);
         match &verify_result {
             Ok(_) => {
@@ -366,7 +368,11 @@ impl ConsumeUnverifiedBlockProcessor {
                 self.shared
                     .new_snapshot(tip_header, cannon_total_difficulty, epoch, new_proposals);
 
+            #[cfg(ckb_verif)]
+            ckb_util::verif::point("chain::between_commit_and_store_snapshot");
             self.shared.store_snapshot(Arc::clone(&new_snapshot));
+            #[cfg(ckb_verif)]
+            ckb_util::verif::point("chain::after_store_snapshot");
 
             let tx_pool_controller = self.shared.tx_pool_controller();
             if tx_pool_controller.service_started() {
